@@ -104,6 +104,15 @@ def _body_items(body):
     }
     if c != '-':
         ns['c'] = ctab[c]()
+    w = body.get('w', '-')          # overrides of parameters with composite datatypes (defined in every root)
+    wtab = {
+        'arrmax': lambda: {'arr': Parameter(max=5)},            # ArrayOf forwards it to its member
+        'scmax': lambda: {'sc': Parameter(max=4)},
+        'txt': lambda: {'txt': Parameter('another text')},
+        'enum': lambda: {'en': 1},
+    }
+    if w != '-':
+        ns.update(wtab[w]())
     m = body.get('m', '-')
     if m == 'bare':
         ns['visibility'] = 'expert'
@@ -114,9 +123,14 @@ def _body_items(body):
 
 def _composites():
     """parameters whose datatype keeps its mutable state in MEMBER datatypes (fixed part of every root class)"""
-    from frappy.core import ArrayOf, FloatRange, IntRange, Parameter, StructOf, TupleOf
-    from frappy.datatypes import LimitsType
+    from frappy.core import ArrayOf, EnumType, FloatRange, IntRange, Parameter, ScaledInteger, StructOf, TupleOf
+    from frappy.datatypes import LimitsType, TextType
+    from frappy.params import Limit
     return {
+        'txt': Parameter('a text', TextType(), default=''),
+        'sc': Parameter('scaled', ScaledInteger(0.5, 0, 10, unit='$'), default=0, readonly=False),
+        'en': Parameter('an enum', EnumType('mode', off=0, on=1), default=0, readonly=False),
+        'p_limits': Limit(),
         'lim': Parameter('limits', LimitsType(FloatRange(unit='$')), default=(0, 0), readonly=False),
         'tup': Parameter('a tuple', TupleOf(FloatRange(unit='$'), IntRange(0, 9)), default=(0, 0), readonly=False),
         'arr': Parameter('an array', ArrayOf(FloatRange(unit='$'), 0, 3), default=[], readonly=False),
@@ -127,6 +141,9 @@ def _composites():
 CFGS = {
     'pmaxK': {'p': {'max': 30}, 'value': {'unit': 'K'}},
     'pvalmm': {'p': {'value': 5}, 'value': {'unit': 'mm'}},
+    'arrmax': {'arr': {'max': 7}, 'value': {'unit': 'K'}},
+    'plim': {'p_limits': {'value': (2, 9)}},
+    'scmax': {'sc': {'max': 6}},
     '-': {},
     'pmax': {'p': {'max': 30}},
     'pmin': {'p': {'min': 10}},
@@ -165,6 +182,10 @@ def _mutate(obj, mut):
         obj.parameters['arr'].datatype.members.setProperty('min', -3)
     elif mut == 'sctmember':
         obj.parameters['sct'].datatype.members['x'].setProperty('unit', 'V')
+    elif mut == 'scmember':
+        obj.parameters['sc'].datatype.setProperty('max', 5)
+    elif mut == 'enumname':
+        obj.parameters['en'].datatype.set_name('renamed')
     elif mut == 'statustext':
         obj.parameters['status'].datatype.members[1].setProperty('maxchars', 10)
     elif mut == 'cmdres':
@@ -271,6 +292,19 @@ def describe_instance(obj):
         acc[n] = d
     ex = dict(obj.exportProperties())
     ex.pop('implementation', None)       # the class name is not part of the description
+    # behaviour: what a change request of p is answered (the write wrapper validates with the instance's datatype)
+    po, wf = obj.parameters.get('p'), getattr(obj, 'write_p', None)
+    if po is not None and wf is not None:
+        saved = po.value, po.timestamp, po.readerror
+        res = []
+        for v in (-6, -1, 0, 3, 5, 7, 10, 11, 20, 21, 30, 31, 50, 51, 100, 101):
+            try:
+                wf(v)
+                res.append('1')
+            except Exception:
+                res.append('0')
+        po.value, po.timestamp, po.readerror = saved
+        acc['p']['write'] = ''.join(res)
     return _intern({
         'order': list(obj.accessibles), 'acc': acc, 'modprops': ex,
         'names': sorted(obj.accessiblename2attr.items(), key=repr), 'writedict': sorted(obj.writeDict),
@@ -371,7 +405,7 @@ def run_program(ops):
             err = w.defclass(x, op['bases'], op['body'])
             ev = {'ev': act, 'x': x, 'bases': list(op['bases']), 'body': _canon(op['body']),
                   'mixin': bool(op['body'].get('mixin')),
-                  'bare': any(str(op['body'].get(f, '-')).startswith('bare') for f in 'pq')}
+                  'bare': any(str(op['body'].get(f, '-')).startswith('bare') for f in 'pq') or op['body'].get('w') == 'enum'}
         elif act == 'instantiate':
             err = w.instantiate(x, op['c'], op['cfg'])
             ev = {'ev': act, 'x': x, 'c': op['c'], 'cfg': _canon(op['cfg'])}
@@ -418,7 +452,7 @@ Q_DER = ['ppty', 'props', 'bare', 'none']
 V_DER = ['unit', 'lim', 'dt']
 C_DER = ['cmd', 'cprops', 'cgroup', 'method', 'none']
 MUTS = ['setmax', 'setmin', 'setunit', 'reginput', 'reginput2', 'pvis', 'cmdarg', 'cmdres', 'statustext', 'tgtmin',
-        'limmember', 'tupmember', 'arrmember', 'sctmember']
+        'limmember', 'tupmember', 'arrmember', 'sctmember', 'scmember', 'enumname']
 
 
 def random_program(rnd, nclasses, ninst, nmut):
@@ -443,8 +477,9 @@ def random_program(rnd, nclasses, ninst, nmut):
             bases = rnd.sample(classes, k)
             body = {'mixin': False, 'p': '-', 'q': '-', 'c': '-', 'm': '-', 'v': '-'}
             for _ in range(rnd.choice([0, 1, 1, 2])):
-                f = rnd.choice('ppqvcm')
-                body[f] = rnd.choice({'p': P_DER, 'q': Q_DER, 'v': V_DER, 'c': C_DER, 'm': ['bare', 'group']}[f])
+                f = rnd.choice('ppqvcmw')
+                body[f] = rnd.choice({'p': P_DER, 'q': Q_DER, 'v': V_DER, 'c': C_DER, 'm': ['bare', 'group'],
+                                      'w': ['arrmax', 'scmax', 'txt', 'enum']}[f])
             modcls.append(x)
         classes.append(x)
         ops.append({'act': 'defclass', 'x': x, 'bases': bases, 'body': body})
@@ -608,7 +643,7 @@ def run(chk):
     if traces:
         chk.sample({'program': glist[len(glist) // 2][0], 'desc_after_last_op': traces[len(glist) // 2][-1]['desc']})
     # code -> spec: random programs beyond the catalogue
-    n = 400 if quick else 3000
+    n = 300 if quick else 3000
     seeds = [chk.seed * 1000003 + i for i in range(n)]
     rtraces = pool_map(_random_trace, seeds)
     phase('random')
